@@ -162,8 +162,11 @@ impl Ctx {
         }
     }
 
+    /// How long the client may take to deliver: its retry time plus its auto-retry delay (+4 s). Scenarios that set
+    /// a long auto-retry delay do so to keep the auto-retry out of the picture: there the retry time (+8 s) counts.
     fn budget(&self) -> Duration {
-        Duration::from_secs(self.opts.max_retry_time as u64 + self.opts.auto_retry_delay as u64 + 4)
+        let auto = self.opts.auto_retry_delay as u64;
+        Duration::from_secs(self.opts.max_retry_time as u64 + if auto > 30 { 4 } else { auto } + 4)
     }
 }
 
